@@ -1,5 +1,5 @@
 CONSTANTS
-  Mutant = "no_etag_check"
+  Mutant = "none"
   MaxLen = 2
   Family = "srtab"
   Deep = FALSE
@@ -10,3 +10,10 @@ INVARIANT Transparency
 INVARIANT WarnedWhenBroken
 INVARIANT SilentWhenCompliant
 INVARIANT SentMatches
+PROPERTY ServerSideAppendOnly
+PROPERTY ClosedForGood
+PROPERTY HeadersSetForGood
+PROPERTY WarningsAppendOnly
+PROPERTY Terminates
+PROPERTY CloseReaches
+PROPERTY UnclosedReported
